@@ -189,11 +189,11 @@ Proof.
   induction l as [|v l IH]; intros m c Hc.
   - simpl. unfold qlen, qsum. simpl. split; ring.
   - simpl fold_left. unfold mean_step at 2 4 6. simpl fst. simpl snd.
-    assert (Hc1 : 0 <= c + 1) by lra.
-    destruct (IH (m + (v / (c + 1) - m / (c + 1))) (c + 1) Hc1) as [H1 H2].
+    assert (Hc1 : 0 <= Qred (c + 1)) by (rewrite Qred_correct; lra).
+    destruct (IH (Qred (m + (v / Qred (c + 1) - m / Qred (c + 1)))) (Qred (c + 1)) Hc1) as [H1 H2].
     split.
-    + rewrite H1, qlen_cons. ring.
-    + rewrite H2, qsum_cons. field. lra.
+    + rewrite H1, qlen_cons, Qred_correct. ring.
+    + rewrite H2, qsum_cons, !Qred_correct. field. lra.
 Qed.
 
 Lemma mean_inc_sum l : mean_inc l * qlen l == qsum l.
